@@ -1,0 +1,6 @@
+//go:build !verif
+
+package logging
+
+// verifOnFatal is a no-op unless the module is built with the verif tag.
+func verifOnFatal(*Logger, string) {}
